@@ -279,11 +279,12 @@ class KernelRun:
         return await self.tx(line, fn, lambda v: hexlist(sorted(v)))
 
     async def check_failed(self, label):
-        """The hash check of a CHECKING step found a change: it runs (executor: reset, RUNNING)."""
+        """The hash check of a CHECKING step found a change: the executor resets it to PENDING
+        without its hash; the next dispatch runs it (with the resource test of a run)."""
         await self.step_op("reset_rerun", label, fn=lambda: self.wf.find(Step, label).reset_for_rerun())
         await self.step_op("delete_hash", label, fn=lambda: self.wf.find(Step, label).delete_hash())
-        await self.step_op("set_state", label, "RUNNING",
-                           fn=lambda: self.wf.find(Step, label).set_state(StepState.RUNNING))
+        await self.step_op("set_state", label, "PENDING",
+                           fn=lambda: self.wf.find(Step, label).set_state(StepState.PENDING))
 
     async def pop_until(self, label, limit=6):
         """Dispatch until `label` is RUNNING (other dispatched steps stay RUNNING/CHECKING)."""
@@ -294,7 +295,7 @@ class KernelRun:
                 return True
             if state == StepState.CHECKING:
                 await self.check_failed(label)
-                return True
+                continue
             ans = await self.pop()
             if ans.startswith("ok none") or not ans.startswith("ok"):
                 return False
